@@ -354,6 +354,16 @@ def run_c10(ctx, spec):
     evals, distinct = 0, set()
     cmds_outs = []
     for name, sd, scenario in scenario_pool(rng, nscen):
+        if name == "random" and rng.random() < 0.5:
+            # one field of one host is the unique extreme of the whole scenario: each argument of the
+            # space's min(...) / max(...) gets its turn at deciding the bound
+            hs = [(a, dict(c)) for a, c in sd["hosts"]]
+            a_, c_ = rng.choice(hs)
+            fld = rng.choice(["val", "dval"])
+            c_[fld] = rng.choice([500, -500, 300.5, -0.5])
+            sens_ = [(x, (dict(hs)[x]["val"])) for x, _ in sd["sens"]]
+            sd = dict(sd, hosts=hs, sens=sens_)
+            scenario = scen.sd_to_scenario(sd)
         sdw = scen.sd_wire(sd)
         cmd = [1, sdw]
         spaces = run_driver([cmd])[0]
